@@ -46,13 +46,25 @@ def repo_benchmarks(quick, seed, limit_quick=24):
     for f in sorted(glob.glob("/repo/benchmarks/**/*.prob", recursive=True)):
         text = open(f).read()
         rest.append(("bench/" + os.path.relpath(f, "/repo/benchmarks")[:-5], text, ["@vars"]))
+    rest = [r for r in rest if "/defective/" not in r[0] and "/development/" not in r[0]]
+    fast = os.path.join(ROOT, "corpus", "bench_fast.txt")
     if quick:
+        if os.path.exists(fast):
+            ok = {l.strip() for l in open(fast) if l.strip()}
+            rest = [r for r in rest if r[0] in ok]
+        else:
+            rest = []
         rnd = random.Random(seed)
         rnd.shuffle(rest)
         rest = rest[:limit_quick]
     return out + rest
 
 
-def generated(quick, seed):
+def generated(quick, seed, count=None):
     from . import progfamily
-    return progfamily.programs(quick, seed)
+    return progfamily.programs(quick, seed, count)
+
+
+def symbolic_templates(quick, seed):
+    """heavily symbolic templates (DESIGN 2.6): every coefficient, probability and initial value a symbol"""
+    return [("sym/" + a, b, c) for a, b, c in corpus("corpus_sym")]
